@@ -29,6 +29,30 @@ def grid_const(rng):
   return fn
 
 
+def eqrange_const(rng):
+  """On-grid weights whose slices along one (random) axis all span the same zero-inclusive width (15/8) at different offsets:
+  per-channel parameters along that axis have EQUAL scales and DIFFERENT zero points under an asymmetric configuration
+  (and, under a symmetric one, scales that differ only through the offset).  Biases / other constants as grid_const."""
+  base = grid_const(rng)
+  def fn(si, t, role, shape):
+    if role != "w" or len(shape) < 2 or min(shape) < 1:
+      return base(si, t, role, shape)
+    ax = int(rng.integers(0, len(shape)))
+    n = shape[ax]
+    r0 = int(rng.integers(0, 16))
+    a = np.moveaxis(np.zeros(shape, np.float32), ax, 0).copy()
+    per = int(np.prod(a.shape[1:]))
+    for i in range(n):
+      k = (r0 + 5 * i) % 16                      # offsets: distinct for up to 16 slices
+      v = rng.integers(0, 16, size=per)
+      if per >= 2:
+        j = rng.choice(per, size=2, replace=False)
+        v[j[0]], v[j[1]] = 0, 15                  # both ends of the width are present
+      a[i] = ((v - k).astype(np.float32) / 8).reshape(a.shape[1:])
+    return np.ascontiguousarray(np.moveaxis(a, 0, ax))
+  return fn
+
+
 def tiny_const(rng):
   """grid_const with the last slice along axis 0 of every weight scaled by 2^-17 (below the 1e-4 range floor) and the last bias element ~2^-19."""
   base = grid_const(rng)
